@@ -223,10 +223,16 @@ impl DynW for Summ {
 /// Shared byte sink.
 #[derive(Clone, Default)]
 pub struct Sink(pub Rc<RefCell<Vec<u8>>>);
+thread_local! {
+    /// `Some(k)`: every `write()` call of a `Sink` accepts at most k bytes (a nearly full pipe, a bounded buffer): the
+    /// `io::Write` contract allows short writes, a reporter must not lose the rest.
+    pub static SHORT_WRITES: std::cell::Cell<Option<usize>> = const { std::cell::Cell::new(None) };
+}
 impl std::io::Write for Sink {
     fn write(&mut self, buf: &[u8]) -> std::io::Result<usize> {
-        self.0.borrow_mut().extend_from_slice(buf);
-        Ok(buf.len())
+        let n = SHORT_WRITES.with(std::cell::Cell::get).map_or(buf.len(), |k| buf.len().min(k.max(1)));
+        self.0.borrow_mut().extend_from_slice(&buf[..n]);
+        Ok(n)
     }
     fn flush(&mut self) -> std::io::Result<()> {
         Ok(())
